@@ -113,12 +113,31 @@ class Engine:
             self._variants = {}
         if name not in self._variants:
             self._variants[name] = Executor(name)
-        return self._variants[name]
+        return Rejudging(self._variants[name], ex)
 
     def close(self):
         for e in getattr(self, "_variants", {}).values():
             e.close()
         self._variants = {}
+
+
+class Rejudging:
+    """Executor of a build variant whose budget overruns are judged on the build with the shipped sizes: the hook's
+    256-byte pages turn every memory access into a walk over a page list thousands long, so 'too slow' in that build
+    says nothing about /repo as shipped. Same request, same budget, executed again on the base executor."""
+    def __init__(self, var, base):
+        self.var, self.base = var, base
+        self.rejudged = 0
+
+    def call(self, req):
+        o = self.var.call(req)
+        if o.kind() == "timeout" and self.base is not self.var:
+            self.rejudged += 1
+            o = self.base.call(req)
+        return o
+
+    def __getattr__(self, name):
+        return getattr(self.var, name)
 
 
 def trim(obj, limit=300):
